@@ -777,7 +777,7 @@ bool PedersenVSS::Reconstruct
 			{
 				if (rbc->DeliverFrom(shares[j], j) && rbc->DeliverFrom(bar, j))
 				{
-					if (mpz_cmpabs(bar, q) >= 0)
+					if ((mpz_cmpabs(shares[j], q) >= 0) || (mpz_cmpabs(bar, q) >= 0))
 					{
 						err << "VSS(" << label << "): P_" << idx2dkg[i] << ": ignore bad share received from P_" << idx2dkg[dealer] << std::endl;
 					}
